@@ -57,7 +57,7 @@ def _cases(ctx, nl):
     rng = random.Random(ctx.seed * 17 + 5)
     cases = []
     hist = {'lenses': 0, 'with_mirror': 0, 'catalogue_glass': 0, 'errors': {}}
-    corp = [c for c in lensgen.corpus() if c['name'] in ('mangin', 'image-in-glass', 'tir-planoconvex', 'window-before-stop', 'cemented')]
+    corp = [c for c in lensgen.corpus() if c['name'] in ('mangin', 'image-in-glass', 'tir-planoconvex', 'window-before-stop', 'cemented', 'rear-stop-finite-object')]
     for li in range(nl + len(corp)):
         spec = dict(corp[li]) if li < len(corp) else lensgen.gen_spec(rng, allow=['plane', 'standard'], decenter=False, mirrors=(li % 4 == 0))
         if max(f[0] for f in spec['fields']) == 0:
